@@ -178,6 +178,9 @@ enum A {
     /// `yield_blocking()` (thread.yield: the host makes progress in the middle of a poll)
     /// and a balanced `backpressure_inc()` / `backpressure_dec()` pair
     HostYield,
+    /// one write and one read of about 2^28 zero-sized items: the clamp to the largest
+    /// length a single copy may have
+    BulkUnit,
 }
 
 impl Future for Interp {
@@ -337,6 +340,9 @@ impl Future for Interp {
                 }
                 acts.push((A::Pause, p.w_pause));
                 acts.push((A::HostYield, 1));
+                if p.w_stream > 0 {
+                    acts.push((A::BulkUnit, 1));
+                }
             } else if !me.finishing {
                 me.finishing = true;
                 continue;
@@ -529,6 +535,50 @@ impl Future for Interp {
                 }
                 A::Pause => {
                     quota = 0;
+                }
+                A::BulkUnit => {
+                    use cmhost::host::{Dir, Elem, Kind, MAX_COPY_LENGTH};
+                    use wit_bindgen::rt::async_support::{stream_new, StreamReader, StreamResult};
+                    fault("bulk_unit_copy_at_length_limit");
+                    let n = MAX_COPY_LENGTH - 2 + pick(6);
+                    gtr!("i{}: write_all of {n} zero-sized items, then a read with unbounded room", me.iid);
+                    let mut ncx = Context::from_waker(&noop);
+                    // write side: the host holds the reader and takes whatever is offered at once
+                    let (mut w, r) = unsafe { stream_new::<()>(&cmhost::payload::s_unit::VT) };
+                    let s = with(|h| h.give_to_host(r.take_handle()));
+                    drop(r);
+                    with(|h| h.shared[s].bulk_unit = true);
+                    let mut items: Vec<()> = Vec::new();
+                    unsafe { items.set_len(n) };
+                    let left = {
+                        let mut f = Box::pin(w.write_all(items));
+                        match f.as_mut().poll(&mut ncx) {
+                            Poll::Ready(v) => v.len(),
+                            Poll::Pending => violate("H-COUNT", "bulk write", "write_all is pending although the host completed every copy at once".into()),
+                        }
+                    };
+                    let total = with(|h| h.shared[s].bulk_total);
+                    if left != 0 || total != n as u64 {
+                        violate("H-COUNT", "bulk write", format!("write_all of {n} items: the host received {total}, {left} were handed back"));
+                    }
+                    drop(w);
+                    // read side: the host holds the writer and fills whatever room is offered
+                    let (s2, rh) = with(|h| h.host_pair(Kind::Stream, Elem::Unit, Dir::W));
+                    with(|h| h.shared[s2].bulk_unit = true);
+                    let mut r = StreamReader::new(rh, &cmhost::payload::s_unit::VT);
+                    let got = {
+                        let mut f = Box::pin(r.read(Vec::new()));
+                        match f.as_mut().poll(&mut ncx) {
+                            Poll::Ready((StreamResult::Complete(k), buf)) => (k, buf.len()),
+                            Poll::Ready((other, _)) => violate("H-COUNT", "bulk read", format!("read returned {other:?}")),
+                            Poll::Pending => violate("H-COUNT", "bulk read", "read is pending although the host completed the copy at once".into()),
+                        }
+                    };
+                    let gave = with(|h| h.shared[s2].bulk_total);
+                    if got.0 as u64 != gave || got.1 as u64 != gave {
+                        violate("H-COUNT", "bulk read", format!("the host supplied {gave} items, the read reported {} and the buffer holds {}", got.0, got.1));
+                    }
+                    drop(r);
                 }
                 A::HostYield => {
                     gtr!("i{}: yield_blocking() inside a poll", me.iid);
